@@ -5,10 +5,12 @@ import (
 	"crypto/elliptic"
 	"crypto/sha256"
 	"crypto/sha512"
+	"encoding/base64"
 	"encoding/hex"
 	"fmt"
 	"math/big"
 	"reflect"
+	"strings"
 
 	"github.com/cloudflare/pat-go/tokens/type3"
 
@@ -24,7 +26,7 @@ func init() {
 			"Every history of length <= 4 (quick) / <= 5 (thorough) over 2 clients x 2 issuer IDs x 2 anonymous IDs (14 operations: honest verify, verify with an invalid signature, verify of another client's correctly signed request, 4 finalizations per client) is enumerated, every history of length <= 5 / <= 6 over a second set of 7 operations that includes FinalizeIndex under client key bytes no request was verified for (the uncompressed SEC1 encoding of a verified client's point: must be refused and leave no state), plus seeded histories of length 200 over 3 clients x 5 x 5 (every other one, and one more exhaustive family, with all client-key arguments handed over in one buffer refilled in place), plus one history that binds 1100 / 4200 distinct issuer IDs for one client with refused conflicts and repeated verifications in between. Issuer IDs are realised without an issuer by handing in ref-blinded fixed points. " +
 			"Oracle at every step: accept/reject as the model says, returned ID = reference HKDF, and the hook snapshot of the client's binding map equals the model's (so a rejected call that overwrote a binding is seen even if no later call probes it). " +
 			"distinct_nontrivial = histories containing a rejection followed by a later acceptance for the same client",
-		Floors:      []string{"histories_with_anonymous_ids_equal_to_index_bytes", "steps_checked", "finalize_accept_new", "finalize_accept_repeat", "finalize_reject_conflict", "finalize_reject_unknown_client", "finalize_reject_unverified_encoding_of_verified_point", "verify_reject_invalid", "snapshot_equal_model", "histories", "histories_with_client_key_buffer_reused_in_place", "flood_history_of_one_client"},
+		Floors:      []string{"histories_with_anonymous_ids_that_spell_each_other", "histories_with_anonymous_ids_equal_to_index_bytes", "steps_checked", "finalize_accept_new", "finalize_accept_repeat", "finalize_reject_conflict", "finalize_reject_unknown_client", "finalize_reject_unverified_encoding_of_verified_point", "verify_reject_invalid", "snapshot_equal_model", "histories", "histories_with_client_key_buffer_reused_in_place", "flood_history_of_one_client"},
 		Assumptions: []string{"histories are sequential (the statement is over sequences); the per-client state is observed through the verif-tagged VerifSnapshot hook"},
 		Run:         runC09,
 	})
@@ -445,6 +447,38 @@ func runC09(c *core.Ctx) {
 				}
 				wa.replay(hist, "anon-ids-equal-to-index-bytes")
 				c.Class("histories_with_anonymous_ids_equal_to_index_bytes")
+			}
+		}
+	}
+	// the same for anonymous ids that are spellings of each other: four raw bytes, their lower- and upper-case hexadecimal
+	// text, their base64 text - four DIFFERENT ids
+	{
+		wb := newC09World(c, 1, 2, 4)
+		raw := []byte{0xde, 0xad, 0xbe, 0xef}
+		wb.anon[0], wb.anon[1], wb.anon[2], wb.anon[3] = raw, []byte(hex.EncodeToString(raw)), []byte(strings.ToUpper(hex.EncodeToString(raw))), []byte(base64.StdEncoding.EncodeToString(raw))
+		bops := []c09Op{{kind: 0, client: 0}}
+		for j := 0; j < 2; j++ {
+			for k := 0; k < 4; k++ {
+				bops = append(bops, c09Op{kind: 2, client: 0, j: j, k: k})
+			}
+		}
+		LB := c.Pick(4, 5)
+		total := 1
+		for i := 0; i < LB; i++ {
+			total *= len(bops)
+		}
+		for lo := 0; lo < total; lo += 128 {
+			if !c.Next() {
+				continue
+			}
+			for x := lo; x < lo+128 && x < total; x++ {
+				hist := make([]c09Op, LB)
+				for i, y := 0, x; i < LB; i++ {
+					hist[i] = bops[y%len(bops)]
+					y /= len(bops)
+				}
+				wb.replay(hist, "anon-ids-spelling-each-other")
+				c.Class("histories_with_anonymous_ids_that_spell_each_other")
 			}
 		}
 	}
